@@ -38,6 +38,7 @@ type Frame struct {
 	activeWit   *LoopContract // witnesses supplied by the innermost annotated loop
 	activeWitEnv *loopEnv
 	activeWitLoop *loopInfo
+	specVars    map[string]SVal // extra identifiers visible to contract expressions of this frame
 	presiteName string // site label of this activation's assumed preconditions (skolem lookup)
 	visited  map[*ssa.Range]*Term // ghost visited set per map range at loop head
 	curKey   map[*ssa.Range]*Term
@@ -527,7 +528,7 @@ func (f *Frame) instr(st *State, r *Term, in ssa.Instruction) {
 	switch x := in.(type) {
 	case *ssa.Alloc:
 		et := derefT(x.Type())
-		if !x.Heap {
+		if !x.Heap || f.ctx.eng.privateCell(x) {
 			st.locals[x] = f.zero(et)
 			f.vals[x] = LocVal{kind: locLocal, alloc: x, rootT: et, T: et}
 			return
@@ -594,6 +595,7 @@ func (f *Frame) instr(st *State, r *Term, in ssa.Instruction) {
 			v := f.load(st, l)
 			f.vals[x] = f.nameLoaded(st, v, x.Type())
 			f.entryClosure(l, x.Type())
+			f.containerInvariants(st, l)
 		case token.NOT:
 			f.vals[x] = Not(f.term(x.X))
 		case token.SUB:
@@ -805,6 +807,63 @@ func (f *Frame) entryClosure(l LocVal, t types.Type) {
 	}
 }
 
+var kindPayload = [][2]string{{"disjunction", "Disjunction"}, {"ref", "Ref"}, {"constant_ref", "ConstantReference"}, {"struct", "Struct"},
+	{"enum", "Enum"}, {"map", "Map"}, {"array", "Array"}, {"scalar", "Scalar"}, {"intersection", "Intersection"}, {"composable_slot", "ComposableSlot"}}
+
+// kindInvariant: IR well-formedness of ast.Type values - the payload selected by Kind is present.
+// Established by the ast.New* constructors; assumed for every Type value read from memory.
+func (f *Frame) kindInvariant(v *Term, t types.Type) {
+	if f.ctx.eng.sorts.typeName(types.Unalias(t)) != "ast.Type" || !f.ctx.eng.assumeKindInv {
+		return
+	}
+	si := f.structInfo(t)
+	if v.size > 12 {
+		return
+	}
+	f.kindInvariantOn(si, "kindinv:"+v.String(), func(i int) *Term { return si.Get(v, i) })
+}
+
+func (f *Frame) kindInvariantOn(si *StructInfo, key string, get func(i int) *Term) {
+	ki := si.FieldIndex("Kind")
+	if ki < 0 || f.ctx.assumed[key] {
+		return
+	}
+	f.ctx.assumed[key] = true
+	var cs []*Term
+	for _, kp := range kindPayload {
+		fi := si.FieldIndex(kp[1])
+		if fi < 0 {
+			continue
+		}
+		cs = append(cs, Implies(Eq(get(ki), f.ctx.strLit(kp[0])), Neq(get(fi), IntLit(0))))
+	}
+	f.ctx.assume(And(cs...))
+	f.ctx.trusted["IR well-formedness: for every ast.Type value in memory the payload pointer selected by Kind is non-nil (established by the ast.New* constructors; not established for types decoded from user YAML)"] = true
+}
+
+// containerInvariants: IR invariants of the object a field is being read from.
+func (f *Frame) containerInvariants(st *State, l LocVal) {
+	if !f.ctx.eng.assumeKindInv || len(l.path) == 0 || l.ref == nil || mentionsBound(l.ref) {
+		return
+	}
+	rt := f.subst(l.rootT)
+	switch l.kind {
+	case locHeap:
+		if f.ctx.eng.sorts.typeName(types.Unalias(rt)) == "ast.Type" {
+			si := f.structInfo(rt)
+			ref := l.ref
+			f.kindInvariantOn(si, "kindinv@"+ref.String()+"/"+fmt.Sprint(st.heap[compF(si, 0)] == nil), func(i int) *Term { return f.readHeapField(st, si, i, ref) })
+		}
+	case locElem:
+		if isStructT(rt) && (l.idx == nil || !mentionsBound(l.idx)) {
+			root := f.readRoot(st, l)
+			if root.size <= 14 {
+				f.assumeWf(st, root, rt)
+			}
+		}
+	}
+}
+
 // mentionsBound: the term contains a quantifier-bound variable (they are named x!q<n>, x!cp<n>, ...).
 func mentionsBound(t *Term) bool {
 	if t.IsAtom() {
@@ -844,7 +903,17 @@ func (f *Frame) assumeWf(st *State, v *Term, t types.Type) {
 		if v.size > 40 {
 			return
 		}
+		f.kindInvariant(v, t)
 		si := f.structInfo(t)
+		if f.ctx.eng.assumeKindInv && f.ctx.eng.sorts.typeName(types.Unalias(t)) == "ast.EnumValue" {
+			if ti := si.FieldIndex("Type"); ti >= 0 {
+				tsi := f.structInfo(si.Fields[ti].Type)
+				if ki := tsi.FieldIndex("Kind"); ki >= 0 {
+					f.ctx.assumeOnce("enumvalue:"+v.String(), Eq(tsi.Get(si.Get(v, ti), ki), f.ctx.strLit("scalar")))
+					f.ctx.trusted["IR well-formedness: the type of every enum member is a scalar"] = true
+				}
+			}
+		}
 		for i, fi := range si.Fields {
 			switch fi.Type.Underlying().(type) {
 			case *types.Pointer, *types.Map, *types.Slice:
